@@ -491,7 +491,15 @@ Definition ext_del (c : cfg) (sv : server) (i : ident) : server :=
 Inductive op :=
 | Add (x : nat) | GetId (i : ident) | Modify (x : nat) (v : val) | Commit (x : nat) | Update (x : nat)
 | Discard (x : nat) (safe : bool) | ContainsId (i : ident) | ContainsObj (x : nat) | Len | Iter
-| ExtPut (i : ident) (v : val) | ExtDel (i : ident).
+| ExtPut (i : ident) (v : val) | ExtDel (i : ident)
+| UpdateChild (x : nat) | CommitChild (x : nat).
+(* UpdateChild x / CommitChild x: update() / commit() called on an element NESTED in the Identifiable x (e.g. a
+   Property of a Submodel).  base.py: the child has no source of its own, so update() walks up with find_source()
+   and calls update_object(updated_object=child, store_object=x, ...), which fetches the document, records its
+   _rev and refreshes the WHOLE store_object (store_object.update_from(document)); commit() calls commit_object
+   for every ancestor with a source, which PUTs the whole store_object.  Towards this backend they are therefore
+   the same calls as x.update() / x.commit(): one request, the whole replica (the payload token stands for all
+   parts of the Identifiable). *)
 
 Definition step (c : cfg) (f : fspec) (w : world) (o : op) : res :=
   match o with
@@ -516,6 +524,8 @@ Definition step (c : cfg) (f : fspec) (w : world) (o : op) : res :=
   | Iter => op_iter c f w
   | ExtPut i v => (mkWorld (ext_put c (w_sv w) i v) (w_cl w), ODone, 0)
   | ExtDel i => (mkWorld (ext_del c (w_sv w) i) (w_cl w), ODone, 0)
+  | UpdateChild x => op_update c f w x
+  | CommitChild x => op_commit c f w x
   end.
 
 Definition world_of (r : res) : world := fst (fst r).
